@@ -13,6 +13,12 @@ Driver for C19. Ops (kept in step with go/internal/c19):
   stream back with `readAll` and prints per message the projection on its (id, type):
   header frames sorted, data frames in stream order, what the wrapper returned to the consumer.
   msg = kind/id/api/pseudo,…/host/cl/te/hdrs/reads  (see `parseMsg`).
+* `m <msg>` … `rung <n>` — the same under a controlled schedule of the harness.
+* every run op may carry what the run decided: `ord=<i,i,…>` (the message each `Write` of the writer goroutine belonged
+  to, in order) and `ts=<hex,…>` (each message's `:timestamp` value), `ho=<names>/…` (the iteration order of each message's header map). With `ord` the model's goroutine system
+  (`Marbl.Sys`) replays that schedule — each sender's channel sends in program order, `take i; write` per entry, then
+  `Close` — and must be at rest afterwards (else `sched-invalid`); the stream is what its writer wrote, and the line
+  ends with `writes=<n> stream=<len>:<fnv>` of it. Without `ord` the messages are written one after the other.
 -/
 namespace Martian.Drv.C19
 open Martian Martian.Marbl
@@ -96,7 +102,13 @@ structure Msg where
 
 def tsName : Bytes := strBytes ":timestamp"
 
-def parseMsg (tok : String) : Option Msg :=
+/-- The header map in the iteration order the run had (`ko`: header names in order of their last occurrence in the
+message's frames); keys the run did not show keep their place at the end. `Fields.hdr` is "the Go map in one
+iteration order": this picks the one. -/
+def orderMap (m : List (Bytes × List Bytes)) (ko : List Bytes) : List (Bytes × List Bytes) :=
+  (ko.filterMap fun k => m.find? fun kv => kv.1 == k) ++ m.filter fun kv => !ko.contains kv.1
+
+def parseMsg (tok : String) (ts : Bytes := []) (ko : List Bytes := []) : Option Msg :=
   match tok.splitOn "/" with
   | [kind, id, api, pseudo, host, cl, te, hdrs, reads] => do
     let id ← unhex id
@@ -107,20 +119,21 @@ def parseMsg (tok : String) : Option Msg :=
     let hdr ← parseHdrs hdrs
     let nb := reads.startsWith "N"
     let reads ← parseReads reads
-    let f : Fields := { hdr := hdr, host := host, cl := cl, clText := strBytes (toString cl.toNat), te := te }
+    let f0 : Fields := { hdr := hdr, host := host, cl := cl, clText := strBytes (toString cl.toNat), te := te }
+    let f : Fields := if ko.isEmpty then f0 else { hdr := orderMap f0.map ko, host := [], cl := 0, clText := [], te := none }
     let ps := pseudo.splitOn ","
     if kind = "q" then
       match ps with
       | [m, sch, au, pa, qu, pr, rem] => do
         let m ← unhex m; let sch ← unhex sch; let au ← unhex au; let pa ← unhex pa
         let qu ← unhex qu; let pr ← unhex pr; let rem ← unhex rem
-        pure ⟨1, id, requestHeaders m sch au pa qu pr rem [] api f, reads, nb⟩
+        pure ⟨1, id, requestHeaders m sch au pa qu pr rem ts api f, reads, nb⟩
       | _ => none
     else if kind = "s" then
       match ps with
       | [pr, st, reason] => do
         let pr ← unhex pr; let st ← st.toNat?; let reason ← unhex reason
-        pure ⟨2, id, responseHeaders pr (strBytes (toString st)) reason [] api f, reads, nb⟩
+        pure ⟨2, id, responseHeaders pr (strBytes (toString st)) reason ts api f, reads, nb⟩
       | _ => none
     else none
   | _ => none
@@ -145,28 +158,69 @@ def showMsg (got : List Frame) (i : Nat) (m : Msg) : String :=
   let rets := (if m.noBody && m.mt == 1 then m.reads else (bodyRun m.mt (m.id.take 8) 0 m.reads).1).map showRet
   s!"m{i}=" ++ joinOr "," hs ++ "|" ++ joinOr "," ds ++ "|" ++ joinOr "," rets
 
+/-- what the run decided (`ord=…`, `ts=…` tokens), split from the message tokens -/
+structure Obs where
+  ord : Option (List String) := none
+  ts : List String := []
+  ho : List String := []
+
+def splitObs (toks : List String) : List String × Obs :=
+  toks.foldl (fun (acc : List String × Obs) t =>
+    if t.startsWith "ord=" then (acc.1, { acc.2 with ord := some (if t == "ord=-" then [] else ((t.drop 4).toString.splitOn ",")) })
+    else if t.startsWith "ts=" then (acc.1, { acc.2 with ts := (t.drop 3).toString.splitOn "," })
+    else if t.startsWith "ho=" then (acc.1, { acc.2 with ho := (t.drop 3).toString.splitOn "/" })
+    else (acc.1 ++ [t], acc.2)) ([], {})
+
+def parseMsgs (toks : List String) (obs : Obs) : Option (List Msg) :=
+  ((List.range toks.length).zip toks).mapM fun p => do
+    let t ← (match obs.ts[p.1]? with | some h => unhex h | none => some [])
+    let ko ← (match obs.ho[p.1]? with
+      | some h => if h == "_" then some [] else (h.splitOn ",").mapM unhex
+      | none => some [])
+    parseMsg p.2 t ko
+
 /-- `viaHandler`: the stream's writer retains the slices (marbl.Handler); what is parsed back is what its
 subscriber receives (`subscriberStream`, equal to `encodeAll` by `retaining_writer_sees_written`). -/
-def logOp (toks : List String) (viaHandler : Bool := false) : String :=
-  match toks.mapM parseMsg with
+def logOp (toks : List String) (obs : Obs := {}) (viaHandler : Bool := false) : String :=
+  match parseMsgs toks obs with
   | none => "bad-op"
   | some ms =>
     if ms.any (fun m => !idOk m.id) then "panic" else     -- newFrame: id[:8]
-    let frames := (ms.map fun m =>
-      if m.mt == 1 then requestFrames m.id m.hdrs m.noBody m.reads else messageFrames m.mt m.id m.hdrs m.reads).flatten
-    let r := readAll (if viaHandler then subscriberStream .fresh frames else encodeAll frames)
+    let senders := ms.map fun m =>
+      if m.mt == 1 then requestFrames m.id m.hdrs m.noBody m.reads else messageFrames m.mt m.id m.hdrs m.reads
+    -- the frames in the order the writer goroutine wrote them: the observed schedule replayed by `Marbl.Sys`
+    -- (one channel send per frame), or, when the op carries none, one message after the other
+    let written : Option (List Frame) :=
+      match obs.ord with
+      | none => some senders.flatten
+      | some ord =>
+        match ord.mapM String.toNat? with
+        | none => none          -- a write that was not the start of a frame of a logged message
+        | some o => replayWrites senders o
+    match written with
+    | none => "sched-invalid"
+    | some frames =>
+    let stream := if viaHandler then subscriberStream .fresh frames else encodeAll frames
+    let r := readAll stream
     let idx := List.range ms.length
     " ".intercalate ((idx.zip ms).map (fun p => showMsg r.1 p.1 p.2) ++
-      [s!"end={showStop r.2}", s!"frames={r.1.length}"])
+      [s!"end={showStop r.2}", s!"frames={r.1.length}"] ++
+      (if obs.ord.isSome then [s!"writes={frames.length}", s!"stream={stream.length}:{hex64 (fnv stream)}"] else []))
+
+def runOp (s : St) (extra : List String) (viaHandler : Bool := false) : String :=
+  if s.isEmpty then "bad-op" else
+  let (rest, obs) := splitObs extra
+  if !rest.isEmpty then "bad-op" else logOp s obs viaHandler
 
 def step (s : St) (toks : List String) : St × String :=
   match toks with
   | ["read", h] => (s, match unhex h with | some b => readOp b | none => "bad-op")
-  | "log" :: ms => (s, if ms.isEmpty then "bad-op" else logOp ms)
+  | "log" :: ms => (s, let (m, obs) := splitObs ms; if m.isEmpty then "bad-op" else logOp m obs)
   | ["m", tok] => (s ++ [tok], "queued")                  -- same as `log`, one message per op (shrinks better)
-  | ["run"] => ([], if s.isEmpty then "bad-op" else logOp s)
-  | ["runmod"] => ([], if s.isEmpty then "bad-op" else logOp s)   -- through marbl.Modifier: same frames, ids canonicalised by the harness
-  | ["runws"] => ([], if s.isEmpty then "bad-op" else logOp s true)    -- into marbl.Handler (retains the slices) + websocket subscriber: same frames
+  | "run" :: x => ([], runOp s x)
+  | "runmod" :: x => ([], runOp s x)   -- through marbl.Modifier: same frames, ids canonicalised by the harness
+  | "runws" :: x => ([], runOp s x true)    -- into marbl.Handler (retains the slices) + websocket subscriber: same frames
+  | "rung" :: _ :: x => ([], runOp s x)     -- controlled schedule: same frames
   | _ => (s, "bad-op")
 
 end Martian.Drv.C19
